@@ -60,3 +60,35 @@ class OrchWorld(AgentWorld):
         if not self.until(lambda: m._all_agt_stopped.is_set(), "run"):
             return "quiescent before all agents stopped"
         return None
+
+    # ---- resilience -----------------------------------------------------------
+    def deploy(self):
+        m = self.orch.mgt
+        if not self.until(lambda: m.all_registered.is_set(), "registration"):
+            return "not all agents registered"
+        self.mgt("_orchestrator_deploy_computations")
+        if not self.until(lambda: m.ready_to_run.is_set(), "deployment"):
+            return "deployment never completed"
+        return None
+
+    def replicate(self, k):
+        """Orchestrator.start_replication(k)"""
+        import threading
+        m = self.orch.mgt
+        m.ready_to_run = threading.Event()
+        self.accepts = []
+        for name, a in self.agents.items():
+            rc = getattr(a, "replication_comp", None)
+            if rc is None:
+                continue
+            orig = rc._accept_replica
+
+            def accept(origin_agt, comp_def, footprint, _o=orig, _rc=rc, _n=name):
+                self.accepts.append({"a": _n, "c": comp_def.name, "owner": origin_agt, "fp": footprint,
+                                     "held": sorted(_rc.hosted_replicas), "remaining": _rc._remaining_capacity()})
+                return _o(origin_agt, comp_def, footprint)
+            rc._accept_replica = accept
+        self.mgt("_orchestrator_start_replication", k)
+        if not self.until(lambda: m.ready_to_run.is_set(), "replication"):
+            return "replication never reported done by all agents"
+        return None
